@@ -103,9 +103,15 @@ func perChannelTypes(p *Prog) map[string]bool {
 			add(ft)
 		}
 	}
-	for _, a := range Anons(ps) {
-		for _, prm := range a.Params {
-			add(prm.Type())
+	// the fan-out may sit in ProcessSegments itself or in a helper it calls
+	for _, host := range DeepFuncs(ps, 2) {
+		for _, a := range Anons(host) {
+			if !startedWithGo(host, a) {
+				continue
+			}
+			for _, prm := range a.Params {
+				add(prm.Type())
+			}
 		}
 	}
 	return out
@@ -218,4 +224,19 @@ func c11GuardRules(c *c11ctx) {
 			}
 		}
 	}
+}
+
+// startedWithGo: the closure is the target of a go statement of host.
+func startedWithGo(host, a *ssa.Function) bool {
+	found := false
+	Instrs(host, func(in ssa.Instruction) {
+		if g, ok := in.(*ssa.Go); ok {
+			if mc, ok := g.Call.Value.(*ssa.MakeClosure); ok && mc.Fn == a {
+				found = true
+			} else if g.Call.Value == ssa.Value(a) {
+				found = true
+			}
+		}
+	})
+	return found
 }
